@@ -456,6 +456,19 @@ func analyzePubs(ep *Episode, allPubs []*sim.Pub, final bool) *pubAnalysis {
 		delivered[markerOfTopic(d.Topic)]++
 	}
 
+	// markers of the PUBLISH packets on the wire, per connection
+	onWire := map[int][]int{}
+	for ci, pk := range a.out {
+		for _, q := range pk {
+			if q.Type == wire.PUBLISH {
+				n := markerOfTopic(q.Topic)
+				if l := onWire[n]; len(l) == 0 || l[len(l)-1] != ci+1 {
+					onWire[n] = append(onWire[n], ci+1)
+				}
+			}
+		}
+	}
+
 	for _, pi := range a.pubs {
 		p := pi.pub
 		// (4) a refused publish leaves no trace
@@ -463,12 +476,8 @@ func analyzePubs(ep *Episode, allPubs []*sim.Pub, final bool) *pubAnalysis {
 			if pi.save != nil {
 				a.violate("C01", "refused-publish-persisted", "publish %d returned %q yet its Save took effect", p.N, p.Err)
 			}
-			for ci, pk := range a.out {
-				for _, q := range pk {
-					if q.Type == wire.PUBLISH && markerOfTopic(q.Topic) == p.N {
-						a.violate("C14", "refused-publish-on-wire", "publish %d returned %q yet conn %d carries it", p.N, p.Err, ci+1)
-					}
-				}
+			for _, ci := range onWire[p.N] {
+				a.violate("C14", "refused-publish-on-wire", "publish %d returned %q yet conn %d carries it", p.N, p.Err, ci)
 			}
 			continue
 		}
